@@ -119,7 +119,7 @@ def run(ctx: core.Ctx) -> core.Report:
     if ctx.quick:
         cfgs = [{"version": v, "nodes": [1, 2]} for v in R.VERSIONS]
     else:
-        cfgs = [{"version": v, "nodes": [1, 2, 3]} for v in R.VERSIONS]
+        cfgs = [{"version": v, "nodes": [1, 2, 3] if v in ("1.5", "2.0", "2.2") else [1, 2]} for v in R.VERSIONS]
     res = bfs.search(ctx, MOD, cfgs, max_depth=60)
     cov = {
         "states": res["states"],
